@@ -34,9 +34,19 @@ type c05Clone struct {
 	Edits []domEdit `json:"edits"`
 }
 
+// c05Hist: a document with a history (domhist.go): read through every API, edited in place through
+// varying routes (MustSet among them), read again; clones are taken before every edit through every entry
+// point (the builder, its sealed view, every nested node incl. nodes attached as sealed views) and must
+// still hold what the document held then after all later edits.
+type c05Hist struct {
+	X     W        `json:"x"`
+	Seal  [][]any  `json:"seal,omitempty"`
+	Edits []dhEdit `json:"edits"`
+}
+
 func init() {
 	register(&Prop{ID: "C05", Run: c05Run,
-		Rule: "pairs/triples of nodes (containers, lists, leaves) generated as near-misses of one another (one key more/less, one leaf changed, list reordered, kind swapped) and independently; thorough tier adds all ordered pairs of all nodes up to 4 nodes over keys {a,b} and scalars {1,2,null}; clone cases edit one side after Clone; heap-clone cases build the document in one of seven ways (FromMap, AddValue/ListNode with own or shared nil leaves, AddContainer/AddList/Set/Append, shared subtrees, containers with an add-and-remove history), encode the real object graph as an explicit heap by pointer identity, Clone, and compare the sharing map (which result node is which input object / a new object) with the heap model, then write in place to every container/list object of the original and of the clone. A case is non-trivial when at least one side is a composite with a child; distinct = distinct canonical case JSON (hash).",
+		Rule: "pairs/triples of nodes (containers, lists, leaves) generated as near-misses of one another (one key more/less, one leaf changed, list reordered, kind swapped) and independently; thorough tier adds all ordered pairs of all nodes up to 4 nodes over keys {a,b} and scalars {1,2,null}; clone cases edit one side after Clone; heap-clone cases build the document in one of seven ways (FromMap, AddValue/ListNode with own or shared nil leaves, AddContainer/AddList/Set/Append, shared subtrees, containers with an add-and-remove history), encode the real object graph as an explicit heap by pointer identity, Clone, and compare the sharing map (which result node is which input object / a new object) with the heap model, then write in place to every container/list object of the original and of the clone; hist cases give a document a history of 1-6 in-place edits (AddValue / Remove / AddContainer / AddList / Set / MustSet / Append / Clear, through the nested builder, through Lookup, or through the root's path API; consecutive edits differ in operation or route and mostly stay on one node), some nested nodes attached as sealed views whose builders the harness keeps, and before every edit and at the end read the document through every read API (Equals both ways against a freshly built document of the expected content and against its clone, reflexivity, Children/Items walk, Size, AsMap/AsSlice, Flatten, Search, Lookup) and clone it through every entry point (builder, sealed view, every nested node): every clone must still hold the content of its moment after all later edits. A case is non-trivial when at least one side is a composite with a child; distinct = distinct canonical case JSON (hash).",
 		Assumptions: []string{"scalars are NaN-free and -0-free, so cmp.Equal on leaves coincides with equality of (Go type, fmt.Sprint) pairs",
 			"keys come from a path-safe pool (no key ends in an index group: the API invariant discussed under D26)",
 			"heap tie: a node object is identified by the address its pointer holds (a sealed view and its builder are one object), a children map by the address of its header (Children() returns the map itself); item slices are not observable by identity and are covered by the in-place write probes; leaf values are immutable scalars"}})
@@ -140,6 +150,19 @@ func c05Run(c *Ctx) {
 			}
 		}
 		c.Do("clone", cl)
+	}
+	// documents with a history (domhist.go)
+	gh := *g
+	gh.ListMax = 5
+	gh.PList = 0.55
+	for i := 0; i < c.N(500); i++ {
+		c.Tick()
+		x := gh.Doc(r)
+		h := c05Hist{X: x, Edits: dhGenEdits(r, &gh, x, 1+r.Intn(6))}
+		if r.Intn(3) == 0 {
+			h.Seal = dhGenSeals(r, x)
+		}
+		c.Do("hist", h)
 	}
 	// pointer level: the real object graph against the heap model's sharing map (heap_share.go)
 	heapCloneGen(c, g, c.N(700))
@@ -364,6 +387,22 @@ func c05Eval(c *Ctx, kind string, raw []byte) {
 			xcx, cxx = x.Equals(cl), cl.Equals(x)
 			cw = nodeWire(cl)
 			c.Direct("clone-same-kind", cl.SameAs(x) && x.SameAs(cl), nil)
+			// the same two values built so that structurally equal subtrees are ONE node object (inside x, inside y
+			// and between them): equality is about content, never about which objects hold it
+			memo := map[string]dom.Node{}
+			xd, yd := heapBuildDag(p.X, memo), heapBuildDag(p.Y, memo)
+			want := canon(p.X) == canon(p.Y)
+			c.Direct("equals-iff-structural(shared node objects)",
+				xd.Equals(yd) == want && yd.Equals(xd) == want && xd.Equals(y) == want && y.Equals(xd) == want && x.Equals(yd) == want && xd.Equals(xd),
+				map[string]any{"structural": want, "xd.Equals(yd)": xd.Equals(yd), "yd.Equals(xd)": yd.Equals(xd), "xd.Equals(y)": xd.Equals(y), "y.Equals(xd)": y.Equals(xd)})
+			cd := xd.Clone()
+			c.Direct("clone-content(shared node objects)", canon(nodeWire(cd)) == canon(p.X) && cd.Equals(xd) && xd.Equals(cd), nodeWire(cd))
+			// equivalent entry points: the sealed (read-only) views answer like their builders, on either side
+			xs, ys := c05Sealed(x), c05Sealed(y)
+			c.Direct("equals-iff-structural(sealed views)", xs.Equals(ys) == want && ys.Equals(xs) == want && xs.Equals(y) == want && y.Equals(xs) == want && x.Equals(ys) == want && xs.Equals(xs) && xs.Equals(x) && x.Equals(xs),
+				map[string]any{"structural": want, "xs.Equals(ys)": xs.Equals(ys), "ys.Equals(xs)": ys.Equals(xs), "xs.Equals(y)": xs.Equals(y), "y.Equals(xs)": y.Equals(xs), "xs.Equals(x)": xs.Equals(x), "x.Equals(xs)": x.Equals(xs)})
+			cs := xs.Clone()
+			c.Direct("clone-content(sealed view)", canon(nodeWire(cs)) == canon(p.X) && cs.Equals(xs) && xs.Equals(cs) && cs.SameAs(x) && xs.SameAs(y) == x.SameAs(y), nodeWire(cs))
 		})
 		if !c.Direct("no-panic", out == "ok", txt) {
 			return
@@ -384,6 +423,8 @@ func c05Eval(c *Ctx, kind string, raw []byte) {
 		c.Direct("clone-content", canon(cw) == canon(p.X), cw)
 		m := c.Model("equals", map[string]any{"x": p.X, "y": p.Y})
 		c.Corr("equals", map[string]any{"xy": xy, "yx": yx, "xx": xx, "same": same, "cx": cw, "xcx": xcx}, m)
+	case "hist":
+		c05EvalHist(c, raw)
 	case "triple":
 		var p c05Triple
 		if err := json.Unmarshal(raw, &p); err != nil {
@@ -442,4 +483,116 @@ func wireKind(w W) string {
 		}
 	}
 	return "leaf"
+}
+
+// c05EvalHist: see c05Hist.
+func c05EvalHist(c *Ctx, raw []byte) {
+	var p c05Hist
+	if err := json.Unmarshal(raw, &p); err != nil {
+		panic(err)
+	}
+	if wireKind(p.X) != "cont" || !c05KeysOK(p.X) {
+		return // shrinking may propose non-documents: outside the domain
+	}
+	c.Nontrivial()
+	opts := dhReadOpts{Paths: dhAllKeysSafe(p.X)}
+	for _, e := range p.Edits {
+		if !dhPathSafe(e.Key) && e.Key != "" || (e.V != nil && !dhAllKeysSafe(e.V)) {
+			opts.Paths = false
+		}
+		if e.V != nil && !c05KeysOK(e.V) {
+			return
+		}
+	}
+	type snap struct {
+		cl   dom.Node
+		want string
+		how  string
+		step int
+	}
+	var snaps []snap
+	executed := 0
+	out, txt := guard(func() {
+		d := dhNew(p.X, p.Seal)
+		if len(d.held) > 0 {
+			c.Dist("hist:sealed-nodes")
+		}
+		for i := 0; ; i++ {
+			if !dhReport(c, "hist:", i, d.reads(opts)) {
+				return
+			}
+			// clones through every entry point
+			want := canon(d.exp)
+			snaps = append(snaps, snap{d.root.Clone(), want, "builder.Clone()", i}, snap{d.root.Seal().Clone(), want, "Seal().Clone()", i})
+			var ps []dhPos
+			dhPositions(d.exp, []any{}, &ps)
+			for k, q := range ps {
+				if len(q.at) == 0 || k > 8 {
+					continue
+				}
+				n, _ := d.walk(q.at)
+				sub, ok := dhGet(d.exp, q.at)
+				if n == nil || !ok {
+					continue
+				}
+				how := "nested.Clone()"
+				if d.builderOf(n) != n {
+					how = "nested sealed view.Clone()"
+				}
+				cl := n.Clone()
+				c.Direct("hist:clone-same-kind", cl.SameAs(n) && n.SameAs(cl), how)
+				c.Direct("hist:clone-equals-original", cl.Equals(n) && n.Equals(cl) && canon(nodeWire(cl)) == canon(sub),
+					map[string]any{"how": how, "clone": nodeWire(cl), "expected": sub, "after_edits": i})
+				snaps = append(snaps, snap{cl, canon(sub), how, i})
+			}
+			if i >= len(p.Edits) {
+				break
+			}
+			st := d.apply(p.Edits[i])
+			c.Dist("hist:edit=" + p.Edits[i].Op + ":" + st)
+			if st == "skip" {
+				continue
+			}
+			executed++
+			if !c.Direct("hist:edit-executes", st == "ok", map[string]any{"edit": p.Edits[i], "result": st}) {
+				return
+			}
+		}
+		for _, s := range snaps {
+			got := nodeWire(s.cl)
+			if !c.Direct("hist:clone-independent", canon(got) == s.want,
+				map[string]any{"how": s.how, "cloned_after_edits": s.step, "clone now": got, "clone then": json.RawMessage(s.want)}) {
+				return
+			}
+		}
+		// the model's equality on the final content, against the document as it is now
+		defer func() {
+			s := dhItemsAreCopies(d.root)
+			c.Direct("hist:Items()-hands-out-a-copy", s == "", s)
+		}()
+		fresh := wireNode(d.exp)
+		cl := d.root.Clone()
+		m := c.Model("equals", map[string]any{"x": d.exp, "y": d.exp})
+		c.Corr("equals(after history)", map[string]any{"xy": d.root.Equals(fresh), "yx": fresh.Equals(d.root), "xx": d.root.Equals(d.root),
+			"same": d.root.SameAs(fresh), "cx": nodeWire(cl), "xcx": d.root.Equals(cl)}, m)
+	})
+	c.Direct("no-panic", out == "ok", txt)
+	c.Dist(fmt.Sprintf("hist:edits-executed=%d", executed))
+}
+
+// c05KeysOK: no member name ends in an index group (D26: the builder API would store it as a list position).
+func c05KeysOK(w W) bool {
+	has, _ := wireIdxKeys(w)
+	return !has
+}
+
+// c05Sealed: the read-only view of a builder (a leaf has none and stands for itself).
+func c05Sealed(n dom.Node) dom.Node {
+	switch b := n.(type) {
+	case dom.ContainerBuilder:
+		return b.Seal()
+	case dom.ListBuilder:
+		return b.Seal()
+	}
+	return n
 }
